@@ -135,6 +135,12 @@ theorem sum_default_identity :
   ⟨fun a => ⟨sumItem_dflt_left a, sumItem_dflt_right a⟩, fun a => ⟨sumAddItem_dflt_left a, sumAddItem_dflt_right a⟩,
    fun a => ⟨strCatItem_dflt_left a, strCatItem_dflt_right a⟩⟩
 
+/-- the two flip / count-ones items (zero-sized and one-byte modifier): unconditional two-sided identity. -/
+theorem flip_default_identity (a : Int × Int) :
+    (flipZItem.op (flipZItem.val flipZItem.dflt) a = a ∧ flipZItem.op a (flipZItem.val flipZItem.dflt) = a) ∧
+    (flipBItem.op (flipBItem.val flipBItem.dflt) a = a ∧ flipBItem.op a (flipBItem.val flipBItem.dflt) = a) :=
+  flipItems_dflt a
+
 /-- `affHash`: identity on canonical residues (all values the item ever produces). -/
 theorem affHash_default_identity (a : Int × Int × Int) (h : AffCanon a) :
     affHashItem.op (affHashItem.val affHashItem.dflt) a = a ∧ affHashItem.op a (affHashItem.val affHashItem.dflt) = a :=
